@@ -28,7 +28,7 @@ summaries    : the expected rendering of a statistics summary depends on the cou
                carrying only part of the selected labels; a summary by labels may have no row at all (TLC enumerates it).
                Keys say which: /repeated-names, /same-name-other-test, /one-task, /zero-rows, /two-labels, /partial-labels.
 names/orders : the expected rendering does not depend on what the named things of a result are called nor on the order in
-               which they were given: one case in four of every pattern is also presented with its datasets /
+               which they were given: one case in five of every pattern (in fifteen for the summaries of tasks / tests) is also presented with its datasets /
                metadata samples and keys / tasks / tests / labels and label values called by names whose insertion order is
                not the alphabetical one ('run9' before 'run10' -- string order differs from numeric order --, 'tripoli' /
                'mcnp' / 'serpent', the plain names in descending order), the items of a summary listed in another order
@@ -38,7 +38,7 @@ names/orders : the expected rendering does not depend on what the named things o
                value of that sample / label for the row's key / label row (Render!NamedCellsOK); both are part of rowsOK,
                i.e. of the clauses BinRows / ItemRows.  Which cells of a metadata row are marked is not in the statement
                (rows are): a mark under the header of a sample that agrees with the reference is reported as DRIFT.
-table ops of : one case in eight (quick) / six has the tables its representer produced joined with themselves, joined with the
+table ops of : one case in fourteen (quick) / eight has the tables its representer produced joined with themselves, joined with the
 representer    table the same representer produced for another result of the same kind (same headers, another failing
 tables         pattern / number of rows), sliced, joined then sliced, on the real TableTemplates; the text of the final table
                is read back and TLC (TableOpsTrace.tla) compares it with what TableOps.tla computes from the formatted
@@ -985,8 +985,9 @@ def order_variants(cases, stride=1, start=0):
         g = groups.setdefault(pat, len(groups) + start)
         n = seen[pat]
         seen[pat] += 1
-        if (n + g) % stride == 0:
-            out.append(dict(c, ord=ORDS[((n + g) // stride + g // stride) % len(ORDS)]))
+        k = stride * (1 if c['kind'] in DS_KINDS + ('metadata', 'stats_labels') else 3)     # (no column per task / test: fewer of those)
+        if (n + g) % k == 0:
+            out.append(dict(c, ord=ORDS[((n + g) // k + g // k) % len(ORDS)]))
             if c['kind'] == 'stats_labels' and c['fail'] and len(out) % 2:
                 out[-1]['by'] = 2          # two selected labels (two columns headed by a label), their names not in alphabetical order
     return out
@@ -1025,7 +1026,7 @@ def _nontrivial(obs):
 def check_renderings(ctx, cases, wd, n_enum):
     """Render every case on the real code, let TLC judge the projections; returns the representer tables seen.
     cases[:n_enum] were enumerated by TLC, the others are seeded random."""
-    results, table_ops = observe_all(cases, ops_partners(cases, ctx.pick(8, 6)))
+    results, table_ops = observe_all(cases, ops_partners(cases, ctx.pick(14, 8)))
     records, tables = [], {}
     named, off = defaultdict(lambda: [0, 0]), 0
     for cid, (case, (obs, tokens, tabs)) in enumerate(zip(cases, results), 1):
@@ -1074,26 +1075,12 @@ def check_renderings(ctx, cases, wd, n_enum):
     return tables, results, table_ops
 
 
-def check_representer_table_ops(ctx, cases, table_ops, wd, tag):
-    """The tables the representers produced, joined / sliced like a report writer may do: the operations are executed on
-    the real TableTemplates, the final table is read back from its text and TLC compares it with what TableOps.tla
-    computes from the formatted inputs."""
-    recs, meta, seen = [], [], set()
-    for i, partner, k, who, j1, j2, ops, tobs in table_ops:
-        sig = json.dumps([j1, j2, ops, tobs['raised'], tobs['invalid'], tobs['rows']], sort_keys=True)
-        if sig in seen:
-            continue
-        seen.add(sig)
-        recs.append(table_record(len(recs) + 1, j1, j2, ops, tobs))
-        meta.append((cases[i], partner, k, who, j1, j2, ops, tobs))
-    if not recs:
-        return
-    res, bad = judge_tables(recs, wd, tag)
-    ctx.tlc(res, 'TableOpsTrace/' + tag)
+def _report_table_ops(ctx, meta, bad):
+    """Violations of the operation traces of check_representer_tables: meta[cid] for the ids in bad."""
     opname = lambda ops: '+'.join(o['op'] for o in ops)
-    failing = set((json.dumps(meta[cid - 1][0], sort_keys=True), meta[cid - 1][2], meta[cid - 1][3], opname(meta[cid - 1][6])) for cid in bad)
+    failing = set((json.dumps(meta[cid][0], sort_keys=True), meta[cid][2], meta[cid][3], opname(meta[cid][6])) for cid in bad)
     for cid, why in sorted(bad.items()):
-        case, partner, k, who, j1, j2, ops, tobs = meta[cid - 1]
+        case, partner, k, who, j1, j2, ops, tobs = meta[cid]
         if len(ops) > 1 and (json.dumps(case, sort_keys=True), k, who, opname(ops[:-1])) in failing:
             continue                       # blame the shortest failing prefix only
         ctx.violation('C12/table-ops/%s/%s%s/%s' % (case['kind'], opname(ops), '' if who == '-' else '-' + who, why),
@@ -1101,31 +1088,44 @@ def check_representer_table_ops(ctx, cases, table_ops, wd, tag):
                       'formatted inputs (%s %s): table %s, operand %s, read back %s'
                       % (k, ops, who, why, tobs.get('why', ''), json.dumps(j1)[:300], json.dumps(j2)[:200], json.dumps(tobs['rows'])[:300]),
                       dict(type='tableops-of', case=case, partner=partner, table=k, operand=who, ops=ops), module=MOD)
-    ctx.count(evaluations=len(recs), traces=len(recs))
-    ctx.cov['representer_table_ops'] = dict(cases=len(set(i for i, *_ in table_ops)), distinct_operation_traces=len(recs),
-                                            by_operations=_count_by(meta, lambda m: opname(m[6]) + ('' if m[3] == '-' else '-' + m[3])),
-                                            by_kind=_count_by(meta, lambda m: m[0]['kind']))
+    ometa = list(meta.values())
+    ctx.cov['representer_table_ops'] = dict(distinct_operation_traces=len(ometa),
+                                            by_operations=_count_by(ometa, lambda m: opname(m[6]) + ('' if m[3] == '-' else '-' + m[3])),
+                                            by_kind=_count_by(ometa, lambda m: m[0]['kind']))
 
 
-def check_representer_tables(ctx, tables, wd, tag):
-    """Every distinct TableTemplate a representer produced, as a zero-operation TableOps trace."""
-    recs, meta = [], []
+def check_representer_tables(ctx, tables, wd, tag, cases=(), table_ops=()):
+    """Every distinct TableTemplate a representer produced, as a zero-operation TableOps trace; and (table_ops, see
+    representer_table_ops) the tables joined / sliced like a report writer may do: the operations were executed on the
+    real TableTemplates, the final table read back from its text, and TLC compares it with what TableOps.tla computes
+    from the formatted inputs."""
+    recs, meta, ometa, seen = [], {}, {}, set()
     for case, k, jt, tobs in tables.values():
         if jt is None:
             ctx.violation('C12/table-readback/%s/raised%s' % (case['kind'], _lay_suffix(case)), tobs['why'], dict(type='readback', case=case, table=k), module=MOD)
             continue
         recs.append(table_record(len(recs) + 1, jt, _EMPTY, [], tobs))
-        meta.append((case, k, jt, tobs))
+        meta[len(recs)] = (case, k, jt, tobs)
+    for i, partner, k, who, j1, j2, ops, tobs in table_ops:
+        sig = json.dumps([j1, j2, ops, tobs['raised'], tobs['invalid'], tobs['rows']], sort_keys=True)
+        if sig not in seen:
+            seen.add(sig)
+            recs.append(table_record(len(recs) + 1, j1, j2, ops, tobs))
+            ometa[len(recs)] = (cases[i], partner, k, who, j1, j2, ops, tobs)
     if not recs:
         return
     res, bad = judge_tables(recs, wd, tag)
     ctx.tlc(res, 'TableOpsTrace/' + tag)
     for cid, why in sorted(bad.items()):
-        case, k, jt, tobs = meta[cid - 1]
+        if cid not in meta:
+            continue
+        case, k, jt, tobs = meta[cid]
         ctx.violation('C12/table-readback/%s/%s%s' % (case['kind'], why, _lay_suffix(case)),
                       'table %d of the rendering does not read back as its formatted inputs (%s): inputs %s, read back %s'
                       % (k, why, json.dumps(jt)[:300], json.dumps(tobs['rows'])[:300]),
                       dict(type='readback', case=case, table=k), module=MOD)
+    if ometa:
+        _report_table_ops(ctx, ometa, {cid: why for cid, why in bad.items() if cid in ometa})
     ctx.count(evaluations=len(recs), traces=len(recs))
 
 
@@ -1319,9 +1319,9 @@ def run_c12(ctx):
              'strided slice, integer dtype; per dataset or all alike), in rotation; statistics summaries are repeated '
              'with the same counts and their items named alike within / across the classes, equally named but different '
              'tests, all results in one task, two selected labels, tests carrying only part of the selected labels (by '
-             'labels: also no row at all), in rotation; one case in four of every pattern is repeated with its '
+             'labels: also no row at all), in rotation; one case in five of every pattern is repeated with its '
              'datasets / samples / keys / tasks / tests / labels named and inserted in an order that is not the alphabetical '
-             'one (and not the numeric one), columns headed by such a name are judged cell by cell; one case in eight / six '
+             'one (and not the numeric one), columns headed by such a name are judged cell by cell; one case in fourteen / eight '
              'has the tables of its representer joined (with themselves, with the table of another result) and sliced, '
              'judged by TableOpsTrace.tla.  distinct_nontrivial = '
              'distinct inputs whose rendering carries a mark or a table (or raises) + distinct random operation '
@@ -1403,7 +1403,7 @@ def run_c12(ctx):
     cases += svars
     # the same results with their datasets / samples / keys / tasks / tests / labels named and inserted in an order
     # that is not the alphabetical one
-    ovars = order_variants(order, stride=4)
+    ovars = order_variants(order, stride=5)
     cases += ovars
     n_enum = len(cases)
     # 3. code -> spec: random results outside the enumerated domain (rendered and judged in the same batches)
@@ -1431,8 +1431,7 @@ def run_c12(ctx):
                              layout_variants_by_layout={l: sum(1 for c in lays + rnd_lays if c['lay'] == l)
                                                         for l in sorted(set(LAYS_0D + LAYS_1D + LAYS_ND))})
     _tick(ctx, 'renderings (enumerated + random)')
-    check_representer_tables(ctx, tables, wd, 'representer-tables')
-    check_representer_table_ops(ctx, cases, table_ops, wd, 'representer-table-ops')
+    check_representer_tables(ctx, tables, wd, 'representer-tables', cases, table_ops)
     _tick(ctx, 'representer tables')
 
     # 4. table operations: model, replay of every dumped state, witnesses
